@@ -5,6 +5,7 @@ import (
 	"go/ast"
 	"go/token"
 	"go/types"
+	"golang.org/x/tools/go/packages"
 	"strings"
 
 	"golang.org/x/tools/go/cfg"
@@ -161,6 +162,42 @@ func errNilCond(info *types.Info, cond ast.Expr, val bool) (ok, isNil bool) {
 	return true, val == (be.Op == token.EQL)
 }
 
+var stmtParents = map[*packages.Package]map[ast.Node]ast.Node{}
+
+// resultDropped: the call is an expression statement, or assigned to blank identifiers only.
+func resultDropped(p *packages.Package, call *ast.CallExpr) bool {
+	par, ok := stmtParents[p]
+	if !ok {
+		par = map[ast.Node]ast.Node{}
+		for _, f := range p.Syntax {
+			for k, v := range parents(f) {
+				par[k] = v
+			}
+		}
+		stmtParents[p] = par
+	}
+	var n ast.Node = call
+	for {
+		pn, ok := par[n].(*ast.ParenExpr)
+		if !ok {
+			break
+		}
+		n = pn
+	}
+	switch x := par[n].(type) {
+	case *ast.ExprStmt:
+		return true
+	case *ast.AssignStmt:
+		for _, l := range x.Lhs {
+			if id, ok := l.(*ast.Ident); !ok || id.Name != "_" {
+				return false
+			}
+		}
+		return true
+	}
+	return false
+}
+
 func serveLoop(e *Env, prop string) {
 	w, r := e.W, e.R
 	cats := serveCats[prop]
@@ -170,9 +207,62 @@ func serveLoop(e *Env, prop string) {
 		r.Explainf("%s.%s: ESP typestate over every path of the keep-alive loop in each function that calls suite.Core.ServeHTTP after req.ReadHeader (events resolved by callee identity; bool locals and `err == nil` tracked): %s.", prop, c, serveCatDesc[c])
 	}
 	isServeHTTP := func(f *types.Func) bool { return esp.Is(f, pkgSuite, "Core", "ServeHTTP") }
-	var fns []*core.FuncInfo
-	for _, fi := range funcsCalling(w, isServeHTTP) {
-		if strings.HasPrefix(fi.Pkg.PkgPath, pkgHTTP1) {
+	isReadHeader := func(f *types.Func) bool { return esp.Is(f, pkgReq, "", "ReadHeader") }
+	// functions that are events themselves are never explored inline
+	isEventFn := func(f *types.Func) bool {
+		return esp.Is(f, pkgHTTP1, "", "writeResponse") || esp.Is(f, pkgHTTP1, "", "writeErrorResponse")
+	}
+	// every callee the hooks below react to
+	isEvent := func(f *types.Func) bool {
+		if f == nil {
+			return false
+		}
+		switch {
+		case isServeHTTP(f), isReadHeader(f), isEventFn(f),
+			esp.Is(f, pkgReq, "", "ReadBodyStream"), esp.Is(f, pkgReq, "", "ReadLimitBody"), esp.Is(f, pkgReq, "", "ReadBody"),
+			esp.Is(f, pkgReq, "", "ContinueReadBodyStream"), esp.Is(f, pkgReq, "", "ContinueReadBody"),
+			esp.Is(f, pkgApp, "RequestContext", "ResetWithoutConn"), esp.Is(f, pkgApp, "RequestContext", "SetHijackHandler"),
+			esp.Is(f, pkgExt, "", "ReleaseBodyStream"), esp.Is(f, pkgProto, "ResponseHeader", "SetCanonical"),
+			esp.Is(f, pkgSuite, "Core", "IsRunning"), esp.Is(f, pkgApp, "RequestContext", "IsHead"), esp.Is(f, pkgProto, "Request", "IsBodyStream"):
+			return true
+		}
+		return f.Pkg() != nil && f.Pkg().Path() == pkgNetwork && (f.Name() == "Flush" || f.Name() == "WriteBinary")
+	}
+	// reaches: pred holds for a call in fi's body or in a helper of the same package it calls
+	// (two levels), not looking inside the event functions
+	var reaches func(fi *core.FuncInfo, pred func(*types.Func) bool, depth int) bool
+	reaches = func(fi *core.FuncInfo, pred func(*types.Func) bool, depth int) bool {
+		found := false
+		ast.Inspect(fi.Decl.Body, func(n ast.Node) bool {
+			if c, ok := n.(*ast.CallExpr); ok && !found {
+				f := calleeOf(fi.Pkg.TypesInfo, c)
+				if f != nil && pred(f) {
+					found = true
+				} else if depth < 2 && f != nil && !isEventFn(f) {
+					if d := w.DeclOf(f); d != nil && d.Pkg == fi.Pkg && d.Decl.Body != nil && d != fi && reaches(d, pred, depth+1) {
+						found = true
+					}
+				}
+			}
+			return !found
+		})
+		return found
+	}
+	var cands, fns []*core.FuncInfo
+	for _, fi := range declaredNonTest(w) {
+		if fi.Decl.Body != nil && strings.HasPrefix(fi.Pkg.PkgPath, pkgHTTP1) && reaches(fi, isServeHTTP, 0) && reaches(fi, isReadHeader, 0) {
+			cands = append(cands, fi)
+		}
+	}
+	// a candidate called by another candidate is part of that one's loop
+	for _, fi := range cands {
+		inner := false
+		for _, o := range cands {
+			if o != fi && len(funcsCallingIn(o, func(f *types.Func) bool { return f == fi.Obj })) > 0 {
+				inner = true
+			}
+		}
+		if !inner {
 			fns = append(fns, fi)
 		}
 	}
@@ -189,18 +279,32 @@ func serveLoop(e *Env, prop string) {
 		fname := w.FuncName(fi.Obj)
 		var serveCall *ast.CallExpr
 		counts := map[string]int{}
-		ast.Inspect(fi.Decl.Body, func(n ast.Node) bool {
-			if c, ok := n.(*ast.CallExpr); ok {
-				f := calleeOf(info, c)
-				if isServeHTTP(f) {
-					serveCall = c
-				}
-				if f != nil {
+		var count func(d *core.FuncInfo, depth int)
+		count = func(d *core.FuncInfo, depth int) {
+			ast.Inspect(d.Decl.Body, func(n ast.Node) bool {
+				if c, ok := n.(*ast.CallExpr); ok {
+					f := calleeOf(d.Pkg.TypesInfo, c)
+					if f == nil {
+						return true
+					}
 					counts[f.Name()]++
+					var hd *core.FuncInfo
+					if depth < 2 && !isEventFn(f) {
+						if x := w.DeclOf(f); x != nil && x.Pkg == fi.Pkg && x.Decl.Body != nil && x != d && reaches(x, isEvent, 2) {
+							hd = x
+						}
+					}
+					if depth == 0 && (isServeHTTP(f) || (hd != nil && reaches(hd, isServeHTTP, 1))) {
+						serveCall = c
+					}
+					if hd != nil {
+						count(hd, depth+1)
+					}
 				}
-			}
-			return true
-		})
+				return true
+			})
+		}
+		count(fi, 0)
 		viol := func(c *esp.Ctx, cat string, pos token.Pos, key, msg string) {
 			c.Violate(pos, cat+"|"+fname+":"+key, msg)
 		}
@@ -218,6 +322,13 @@ func serveLoop(e *Env, prop string) {
 		}
 		rl := &esp.Rule{Name: "serveloop", Init: srv{phase: "idle"}.String(),
 			Track: func(k string) bool { return k == "err == nil" || k == "zr == nil" },
+			// a stretch of the loop moved into a helper of the package is explored in place
+			Inline: func(f *types.Func, d *ast.FuncDecl) bool {
+				return !isEventFn(f) && inlineWhen(info, isEvent, func(n ast.Node) bool {
+					as, ok := n.(*ast.AssignStmt)
+					return ok && len(as.Lhs) == 1 && usedVar(info, as.Lhs[0]) == skipBody
+				})(f, d)
+			},
 			Call: func(c *esp.Ctx, call *ast.CallExpr, f *types.Func) {
 				s := parseSrv(c.S.TS)
 				site := c.SiteKey(call)
@@ -321,6 +432,10 @@ func serveLoop(e *Env, prop string) {
 						upd(c, func(s *srv) { s.hjClear = false })
 					}
 				case esp.Is(f, pkgExt, "", "ReleaseBodyStream"):
+					// the result must go somewhere: assigned (and then tested) or returned
+					if resultDropped(fi.Pkg, call) {
+						viol(c, "release", call.Pos(), site+":release-error-dropped", "the error of ReleaseBodyStream is discarded: a failed drain leaves body bytes in front of the next request")
+					}
 					upd(c, func(s *srv) { s.relNeed = false; s.relPending = true })
 				case esp.Is(f, pkgHTTP1, "", "writeErrorResponse"):
 					if s.phase != "failed" {
